@@ -23,8 +23,8 @@ ASSUMPTIONS = [
     "a refusal is justified when some applicable rule has seen >= n arrivals of that type in its "
     "scope within the trailing interval (weak reading of 'has already passed n')",
     "n = 0 is not generated (documentation defines positive frequencies and -1)",
-    "state bound: stored timestamps per limiter <= 2 * arrivals inside the longest configured "
-    "interval + 16",
+    "state bound: stored scalars of the limiter <= 2 * sum over (address, command) pairs of the peak "
+    "number of arrivals inside one longest-interval window + 2 per pair + 16 (independent of run length)",
 ]
 SHRINK = [["arrivals"]]
 
@@ -151,6 +151,8 @@ def _run(case, sim, RateLimiter):
     seen_refusal = False
     max_interval = max(i for rs in rules.values() for i, n in rs)
     state_fields = [k for k in vars(lim) if k not in ("log", "rules")]
+    window = collections.defaultdict(collections.deque)
+    peak = collections.Counter()
     peak_state = 0
 
     def applicable(addr, cmd):
@@ -217,11 +219,18 @@ def _run(case, sim, RateLimiter):
                     })
             # exempt: n = -1 in an applicable specific rule must never refuse -- covered by overblock
         arrivals[(addr, cmd)].append(now)
+        # what any limiter may need to remember for this (address, command): the arrivals of the
+        # last max_interval seconds; its peak over time bounds what may still be held for an idle pair
+        win = window[(addr, cmd)]
+        win.append(now)
+        while win and now - win[0] > max_interval:
+            win.popleft()
+        peak[(addr, cmd)] = max(peak[(addr, cmd)], len(win))
         if step % 50 == 49 or step == len(case["arrivals"]) - 1:
             stored = sum(deep_count(getattr(lim, f)) for f in state_fields)
             peak_state = max(peak_state, stored)
-            recent = sum(1 for ts in arrivals.values() for t in ts if now - t <= max_interval)
-            bound = 2 * recent + 16
+            recent = sum(peak.values())
+            bound = 2 * recent + 2 * len(peak) + 16
             if stored > bound:
                 viol.append({
                     "cls": "state-unbounded",
